@@ -96,6 +96,7 @@ def run_vote(case, deadline=10.0, seed=None):
                     pass
                 A[...] = keep
         A0 = A.copy()
+        rec.calls.clear()        # draws made during the history calls above do not belong to the observed call
         out = getattr(rule, case["method"])(prof)
         sc = None
         if case["method"] != "score" and hasattr(rule, "score"):
